@@ -52,6 +52,9 @@ func (g *FuncGen) newSpecCtx(st, old *State) *SpecCtx {
 	for _, p := range g.fn.Params {
 		cx.vars[p.Name()] = sval{t: g.vals[p], typ: p.Type(), kind: "val"}
 	}
+	for on, p := range g.paramAlias {
+		cx.vars[on] = sval{t: g.vals[p], typ: p.Type(), kind: "val"}
+	}
 	for _, p := range g.fn.FreeVars {
 		// free variables are pointers to captured cells; expose the cell content by name
 		cx.vars["&"+p.Name()] = sval{t: g.vals[p], typ: p.Type(), kind: "val"}
